@@ -17,7 +17,7 @@ mkdir -p $BASE
 if [ ! -d $BASE/repo ]; then git -C /repo worktree add -q --detach $BASE/repo HEAD || exit 2; cp /repo/Cargo.lock $BASE/repo/ 2>/dev/null; fi
 rsync -a --delete --exclude target --exclude .git --exclude .run --exclude replays --exclude evidence /verif/ $BASE/verif/
 mkdir -p $BASE/verif/evidence
-sed -i "s#/repo/cadence#$BASE/repo/cadence#g" $BASE/verif/harness/Cargo.toml
+sed -i "s#/repo/cadence#$BASE/repo/cadence#g" $BASE/verif/harness/Cargo.toml $BASE/verif/fuzz/Cargo.toml
 git -C $BASE/repo checkout -q -- . && git -C $BASE/repo apply "$PATCH" || { echo "patch does not apply"; exit 2; }
 cd $BASE/verif
 for p in "$@"; do
